@@ -71,7 +71,8 @@ Section Calib.
 
   Inductive sched :=
   | RR (samplers : list sampler) (batch_id : nat)
-  | RL (samplers : list sampler) (halton_id : nat) (best : option LossV) (stopped alive : bool) (consumed : nat).
+  | RL (samplers : list sampler) (halton_id : nat) (best : option LossV) (stopped alive : bool)
+       (q : nat * nat).   (* action queue seen sequentially: (actions consumed or discarded so far, actions put so far) *)
 
   Definition sched_samplers (sc : sched) : list sampler :=
     match sc with RR l _ => l | RL l _ _ _ _ _ => l end.
@@ -151,7 +152,7 @@ Section Calib.
     | RL l h best st al cs =>
         match best with
         | None => Some (h, sc)
-        | Some _ => Some (agent_actions cs, RL l h best st al (S cs))
+        | Some _ => Some (agent_actions (fst cs), RL l h best st al (S (fst cs), snd cs))
         end
     end.
 
@@ -161,7 +162,8 @@ Section Calib.
     | RL l h best st al cs =>
         match min_loss new_losses, best with
         | Some m, None => RL l h (Some m) st al cs
-        | Some m, Some b => RL l h (Some (if loss_leb b m then b else m)) st al cs
+        | Some m, Some b =>            (* the outcome is put; the agent learns from it and puts its next action *)
+            RL l h (Some (if loss_leb b m then b else m)) st al (fst cs, S (snd cs))
         | None, _ => sc
         end
     end.
@@ -280,12 +282,14 @@ Section Calib.
   Definition start_session (sc : sched) : sched + exn :=
     match sc with
     | RR _ _ => inl sc
-    | RL l h b st al cs => if st then inl (RL l h b false true cs) else inr ExValue
+    | RL l h b st al cs =>            (* the agent thread starts and puts its first action of the session *)
+        if st then inl (RL l h b false true (fst cs, S (snd cs))) else inr ExValue
     end.
   Definition end_session (sc : sched) : sched + exn :=
     match sc with
     | RR _ _ => inl sc
-    | RL l h b st al cs => if st then inr ExValue else inl (RL l h b true false cs)
+    | RL l h b st al cs =>            (* repair 0ccda0a: the pending, never executed action is discarded *)
+        if st then inr ExValue else inl (RL l h b true false (snd cs, snd cs))
     end.
 
   (* stable insertion sort of the (param, loss) pairs by loss: what calibrate() returns up to ties *)
